@@ -19,8 +19,12 @@ unicode = tf('&ClassUnicode', 'try_from__unicode', '''
 ensures r matches Ok(f) ==> forall|ch: char| #[trigger] f.sem()(ch) == named_unicode(*unicode)(ch)
 ''', external_body=True, trusted_reason='named leaf: closures call seshat / char predicates; the set is the uninterpreted named_unicode')
 perl = tf('&ClassPerl', 'try_from__perl', '''
-ensures r matches Ok(f) ==> forall|ch: char| #[trigger] f.sem()(ch) == named_perl(*perl)(ch)
-''', external_body=True, trusted_reason='named leaf: closures call char predicates; the set is the uninterpreted named_perl')
+ensures r matches Ok(f) && forall|ch: char| #[trigger] f.sem()(ch) == named_perl(*perl)(ch)
+''', edits=[
+    Replace('U3', 'ClassPerlKind::Word => MatchFn::new(|ch| { $body }),', 'ClassPerlKind::Word => verif_perl_word_leaf(),',
+            why='TRUSTED leaf: the \\w closure calls seshat tables (join_c, gc) Verus has no access to; its set is the uninterpreted spec_perl_word'),
+    MatchFnClosures(calls={'is_numeric': 'spec_is_numeric', 'is_whitespace': 'spec_is_whitespace'}),
+])
 
 union = tf('&ClassSetUnion', 'try_from__union', '''
 ensures r matches Ok(f) ==> forall|ch: char| #[trigger] f.sem()(ch) == union_in(union.items@, union.items@.len() as int, ch)
@@ -95,13 +99,13 @@ decreases *arg.0, 0int
 ''', edits=[
     Ins('body_start', None, 'let (item, negated) = arg;') if False else Replace('E2', 'let match_function = match item {', 'let (item, negated) = arg;\nlet match_function = match item {', why='tuple pattern in the parameter list bound by a let (Verus rejects patterns in parameters of functions with contracts)'),
     Replace('E9', 'l.try_into()?', 'MatchFn::try_from__literal(l)?', why='trait dispatch resolved by argument type'),
-    Replace('U3', 'ClassSetItem::Ascii(ref a) => { $body }', 'ClassSetItem::Ascii(ref a) => { verif_ascii_leaf(a) }',
-            why='TRUSTED named leaf: the [:class:] closures call char predicates Verus does not model; replaced by an opaque constructor whose set is named_ascii(a)'),
+    Replace('U3', 'ClassAsciiKind::Word => MatchFn::new(|ch| { $body }),', 'ClassAsciiKind::Word => verif_perl_word_leaf(),',
+            why='TRUSTED leaf: the [:word:] closure calls seshat tables (join_c, gc) Verus has no access to; its set is the uninterpreted spec_perl_word'),
     Replace('E9', 'ClassSetItem::Unicode(ref c) => c.try_into()?', 'ClassSetItem::Unicode(ref c) => MatchFn::try_from__unicode(c)?', why='trait dispatch resolved by argument type'),
     Replace('E9', 'ClassSetItem::Perl(ref c) => c.try_into()?', 'ClassSetItem::Perl(ref c) => MatchFn::try_from__perl(c)?', why='trait dispatch resolved by argument type'),
     Replace('E9', 'c.as_ref().try_into()?', 'MatchFn::try_from__bracketed(c.as_ref())?', why='trait dispatch resolved by argument type'),
     Replace('E9', 'ClassSetItem::Union(ref c) => c.try_into()?', 'ClassSetItem::Union(ref c) => MatchFn::try_from__union(c)?', why='trait dispatch resolved by argument type'),
-    MatchFnClosures(),
+    MatchFnClosures(calls={'is_alphanumeric': 'spec_is_alphanumeric', 'is_alphabetic': 'spec_is_alphabetic', 'is_ascii': 'spec_is_ascii', 'is_ascii_whitespace': 'spec_is_ascii_whitespace', 'is_ascii_control': 'spec_is_ascii_control', 'is_ascii_graphic': 'spec_is_ascii_graphic', 'is_lowercase': 'spec_is_lowercase', 'is_ascii_punctuation': 'spec_is_ascii_punctuation', 'is_uppercase': 'spec_is_uppercase', 'is_ascii_hexdigit': 'spec_is_ascii_hexdigit', 'is_numeric': 'spec_is_numeric', 'is_whitespace': 'spec_is_whitespace'}),
 ])
 
 binop = Fn(F_MF, 'TryFrom<(&ClassSetBinaryOp, bool)> for MatchFn', 'try_from', ret='r', rename='try_from__binop', impl_as=MF, qual_as=MF, props=['C08'],
@@ -151,7 +155,7 @@ use vstd::std_specs::iter::IteratorSpec;
 use regex_syntax::ast::{
     Ast, Assertion, Flag, FlagsItemKind, FlagsItem, Flags, SetFlags, RepetitionRange, RepetitionKind, RepetitionOp, Repetition, CaptureName, GroupKind, Group, Alternation, Concat,
     ClassBracketed, ClassSet, ClassSetBinaryOp, ClassSetBinaryOpKind, ClassSetItem, ClassSetRange,
-    ClassSetUnion, Literal, LiteralKind, Span, Position, ClassAscii, ClassUnicode, ClassPerl, HexLiteralKind, SpecialLiteralKind,
+    ClassSetUnion, Literal, LiteralKind, Span, Position, ClassAscii, ClassAsciiKind, ClassUnicode, ClassPerl, ClassPerlKind, HexLiteralKind, SpecialLiteralKind,
 };
 ''',
     items=[
